@@ -71,9 +71,9 @@ ASSUMPTIONS = [
 JOBS = {'quick': 4, 'thorough': 16}
 
 COUNTS = {  # engine -> (quick, thorough)
-    'cmdseq': (1500, 60000), 'cmdseq-legacy': (300, 10000), 'vcd-text': (3000, 150000), 'vcd-flex': (12, 100),
-    'abs-tag': (100, 3000), 'bvcd': (3000, 150000), 'scenes-image': (160, 6000), 'sndscript': (3000, 150000),
-    'vmt': (3000, 200000), 'pcf': (1500, 80000), 'smd': (3000, 150000),
+    'cmdseq': (1500, 30000), 'cmdseq-legacy': (300, 5000), 'vcd-text': (3000, 80000), 'vcd-flex': (12, 100),
+    'abs-tag': (100, 3000), 'bvcd': (3000, 80000), 'scenes-image': (160, 3000), 'sndscript': (3000, 80000),
+    'vmt': (3000, 100000), 'pcf': (1500, 40000), 'smd': (3000, 80000),
 }
 
 
